@@ -47,6 +47,9 @@ type caseT struct {
 }
 
 func pairKind(a, b int) string {
+	if !bytes.Equal(ids[a], ids[b]) && bytes.EqualFold(ids[a], ids[b]) {
+		return "ids-differing-in-letter-case"
+	}
 	if len(ids[a]) >= 64 && len(ids[b]) >= 64 && bytes.Equal(ids[a][:48], ids[b][:48]) {
 		return "long-ids-differing-at-the-end"
 	}
